@@ -119,7 +119,7 @@ func conScenario(stack bool, inner string, preload []int, threads [][]stepSpec, 
 			var q fpgo.Queue[int]
 			var s fpgo.Stack[int]
 			lin.Cap = 0
-			if inner == "probe" {
+			if inner == "probe" || inner == "probe-nested" {
 				p := &probe{lifo: stack}
 				q, s = p, p
 			} else if inner == "poison-probe" {
@@ -135,6 +135,13 @@ func conScenario(stack bool, inner string, preload []int, threads [][]stepSpec, 
 			}
 			cq := fpgo.NewConcurrentQueue[int](q)
 			cs := fpgo.NewConcurrentStack[int](s)
+			// "probe-nested": the wrapper is wrapped once more (a ConcurrentQueue is a Queue); the odd clients go through
+			// the outer handle, the even ones keep using the inner one - still one call at a time on the container
+			cqIn, csIn := cq, cs
+			cqOut, csOut := cq, cs
+			if inner == "probe-nested" {
+				cqOut, csOut = fpgo.NewConcurrentQueue[int](cq), fpgo.NewConcurrentStack[int](cs)
+			}
 			for _, v := range preload {
 				if stack {
 					cs.Push(v)
@@ -147,6 +154,10 @@ func conScenario(stack bool, inner string, preload []int, threads [][]stepSpec, 
 				id++
 				my := id
 				vsched.Event("call", my, client, st.kind, st.arg)
+				cq, cs := cqIn, csIn
+				if client%2 == 1 {
+					cq, cs = cqOut, csOut
+				}
 				var v int
 				var err error
 				// (a panic of the wrapped container passes through the wrapper to the caller, who recovers: the
@@ -395,7 +406,10 @@ func scenarios(tier string) []*vsched.Scenario {
 	} {
 		out = append(out, conScenario(true, "bounded-probe", s.pre, s.ts, b))
 	}
-	out = append(out, wrappedBufferedScenario(1))
+	out = append(out, wrappedBufferedScenario(1),
+		conScenario(false, "probe-nested", []int{7}, [][]stepSpec{{po()}, {po()}}, b),
+		conScenario(false, "probe-nested", nil, [][]stepSpec{{o(1), po()}, {o(2), ta()}}, b),
+		conScenario(true, "probe-nested", []int{7}, [][]stepSpec{{pp()}, {ps(1), pp()}}, b))
 	// a wrapped container that panics on one value (the caller recovers): the wrapper stays usable
 	for _, s := range []sc{
 		{nil, [][]stepSpec{{o(666), o(1)}, {po()}}},
